@@ -36,7 +36,7 @@ fn meta() -> Meta {
     Meta {
         id: "C10",
         level: "exploration",
-        rule: "(i) every target string of <= 5 (quick) / 6 (thorough) tokens over {'{', '}', ',', a, e-acute, _Default, W} through Log::enabled and Log::log, with and without an additional writer; (ii) 6 message shapes x absent optional fields x key-values through 10 output kinds; (iii) specification strings: special inputs (the token sweep is C17's); (iv) basename {app, empty, a-umlaut-pp, a.b} x discriminant {none, d, e-acute} x suffix {log, none, l.g} x start time on/off x naming (6 schemes + custom formats of 4/10/20/30 characters with and without current infix) x append on/off through start-W-R-W-restart-W-shutdown; (v) every single near-miss file name of C14's alphabet x naming x cleanup; (vi) recursive logging (1 and 2 levels deep) against 10 output kinds with and without text filter; (vii) write-mode parameters at their extremes; distinct_nontrivial = distinct cases whose input contains a brace, a multi-byte character, an empty part or a pre-existing file",
+        rule: "(i) every target string of <= 5 (quick) / 6 (thorough) tokens over {'{', '}', ',', a, e-acute, _Default, W} through Log::enabled and Log::log, with and without an additional writer; (ii) 6 message shapes x absent optional fields x key-values through 10 output kinds; (iii) specification strings: special inputs (the token sweep is C17's); (iv) basename {app, empty, a-umlaut-pp, a.b} x discriminant {none, d, e-acute} x suffix {log, none, l.g, a multi-byte one} x start time on/off x naming (6 schemes + custom formats of 4/10/20/30 characters and three with multi-byte characters, with and without current infix) x append on/off through start-W-R-W-restart-W-shutdown; (v) every single near-miss file name of C14's alphabet x naming x cleanup; (vi) recursive logging (1 and 2 levels deep) against 10 output kinds with and without text filter; (vii) write-mode parameters at their extremes; distinct_nontrivial = distinct cases whose input contains a brace, a multi-byte character, an empty part or a pre-existing file",
         assumptions: vec![
             "documented panics are kept out of the alphabets (FileSpec::try_from on a path without file name, invalid strftime format strings, use_utc after local time was used)".into(),
             "a hang is a case that does not finish within 10 s".into(),
@@ -274,7 +274,7 @@ fn recursion_case(k: Kind, depth: u8, filter: bool) -> Result<(), (String, Strin
 
 fn namings() -> Vec<(String, Naming)> {
     let mut v: Vec<(String, Naming)> = NG.iter().map(|n| (n.short().to_string(), n.naming())).collect();
-    for (name, fmt) in [("c4", "%H%M"), ("c10", "%Y-%m-%d"), ("c20", "r%Y-%m-%d_%H-%M-%S"), ("c30", "%Y-%m-%d_%H-%M-%S_%Y-%m-%d"), ("r4", "r%j"), ("dot", "%Y.%m.%d_%H.%M.%S")] {
+    for (name, fmt) in [("c4", "%H%M"), ("c10", "%Y-%m-%d"), ("c20", "r%Y-%m-%d_%H-%M-%S"), ("c30", "%Y-%m-%d_%H-%M-%S_%Y-%m-%d"), ("r4", "r%j"), ("dot", "%Y.%m.%d_%H.%M.%S"), ("cjk", "%Y年%m月%d日%H時%M分%S秒"), ("mid", "%Y-%m-%d_%H-%M-%S·%3f"), ("c16é", "r%Y-%m-%d_%H-%Mé")] {
         v.push((format!("{name}+cur"), Naming::TimestampsCustomFormat { current_infix: Some("cur"), format: fmt }));
         v.push((format!("{name}+direct"), Naming::TimestampsCustomFormat { current_infix: None, format: fmt }));
         v.push((format!("{name}+emptycur"), Naming::TimestampsCustomFormat { current_infix: Some(""), format: fmt }));
@@ -420,7 +420,7 @@ fn writemode_case(i: usize) -> Result<(), (String, String)> {
 
 const BASENAMES: [&str; 4] = ["app", "", "äpp", "a.b"];
 const DISCRS: [Option<&str>; 3] = [None, Some("d"), Some("é")];
-const SUFFIXES: [Option<&str>; 3] = [Some("log"), None, Some("l.g")];
+const SUFFIXES: [Option<&str>; 4] = [Some("log"), None, Some("l.g"), Some("ログ")];
 
 fn n_target_units() -> usize {
     TTOK.len() + 1
